@@ -70,29 +70,49 @@ def _sites_formula(R, s, L):
 
 
 def sym_shuffle(ctx, cfg):
+    """One or several successive calls of _shuffle_proteins inside one path (one interpreter
+    session): cfg["calls"] = [(lens, reverse), ...]; a single call is the common case."""
+    import z3
+    from symx import items
+    from symx.core import PathOutcome, Unsupported
+    F = setup()
+    items.reset()
+    calls = cfg.get("calls") or [(cfg["lens"], cfg["reverse"])]
+    props, inputs, prefer, outputs = [], dict(calls=[]), [], None
+    for ci, (lens, reverse) in enumerate(calls):
+        r = _one_call(ctx, F, cfg, ci, lens, reverse)
+        if isinstance(r, PathOutcome):
+            return r
+        p, inp, pref, out = r
+        props += [("call%d_%s" % (ci, n), z) for n, z in p]
+        inputs["calls"].append(inp)
+        prefer += pref
+        outputs = out if len(calls) == 1 else None
+    return PathOutcome(props, inputs, outputs, prefer=prefer)
+
+
+def _one_call(ctx, F, cfg, ci, lens, reverse):
     import z3
     from symx import items, rx, core, world
     from symx.core import SNum, PathOutcome, Unsupported
-    F = setup()
-    pat, reverse, lens = cfg["pattern"], cfg["reverse"], cfg["lens"]
-    items.reset()
+    pat = cfg["pattern"]
     log = []
     F.np = _np_ns(log, cfg.get("perm", "full"))
     prots, zcs = [], []
     for pi, L in enumerate(lens):
-        zc = [z3.Int("c%d_%d" % (pi, i)) for i in range(L)]
+        zc = [z3.Int("c%d_%d_%d" % (ci, pi, i)) for i in range(L)]
         for z in zc:
             ctx.assume(z3.And(z >= 65, z <= 90))
-        seq = items.TStr("".join(str.__str__(items.residue(SNum(z, (65, 90)), prot=pi, pos=i)) for i, z in enumerate(zc)))
-        prots.append(["P%d" % pi, seq])
+        seq = items.TStr("".join(str.__str__(items.residue(SNum(z, (65, 90)), prot=(ci, pi), pos=i)) for i, z in enumerate(zc)))
+        prots.append(["P%d_%d" % (ci, pi), seq])
         zcs.append(zc)
-    inputs = dict(proteins=[[n, items.SymText(s)] for n, s in prots], perms=log)
+    inputs = dict(proteins=[[n, items.SymText(s)] for n, s in prots], perms=log, reverse=reverse)
     try:
         decoys = F._shuffle_proteins(prots, PREFIX, pat, reverse)
     except Unsupported:
         raise
     except Exception as ex:
-        return PathOutcome([], inputs, None, "exc", note=type(ex).__name__ + ":" + str(ex)[:80])
+        return PathOutcome([], dict(calls=[inputs]), None, "exc", note=type(ex).__name__ + ":" + str(ex)[:80])
     props = []
     props.append(("count", z3.BoolVal(len(decoys) == len(prots))))
     R = rx.Rx(pat)
@@ -109,7 +129,7 @@ def sym_shuffle(ctx, cfg):
         src = []
         for c in d:
             t = items.tok(c)
-            src.append(t["pos"] if t.get("prot") == pi else None)
+            src.append(t["pos"] if t.get("prot") == (ci, pi) else None)
         # composition: the decoy is a rearrangement of exactly the target's residues
         props.append(("composition%d" % pi, z3.BoolVal(None not in src and sorted(src) == list(range(L)))))
         if None in src:
@@ -135,7 +155,7 @@ def sym_shuffle(ctx, cfg):
                     for j in range(0, b - a - 2):
                         props.append(("reversed%d_%d_%d_%d" % (pi, a, b, j), z3.Implies(ispep, zc[src[a + 1 + j]] == zc[b - 2 - j])))
     outputs = [[str.__str__(n), items.SymText(s)] for n, s in decoys] if not log else None
-    return PathOutcome(props, inputs, outputs, prefer=[z3.Distinct(zc) for zc in zcs if len(zc) > 1])
+    return props, inputs, [z3.Distinct(zc) for zc in zcs if len(zc) > 1], outputs
 
 
 # ---- make_decoys round trip on a VFS ---------------------------------------------
@@ -255,6 +275,10 @@ def harnesses(tier):
                           dict(pattern="[KR]", reverse=reverse, lens=[4, 4]), sym_shuffle, real="shuffle",
                           functions=[F._shuffle_proteins, F._cleavage_sites], bounds=dict(L=4, proteins=2), stubs=stubs,
                           assumptions=["residues are upper-case letters A-Z"]))
+    # several calls in one interpreter session (module-level state must not carry over)
+    for L in ((5,) if tier == "quick" else (5, 6)):
+        hs.append(Harness("shuffle[[KR],shuffle L=%d then reverse L=%d, same session]" % (L, L), dict(pattern="[KR]", calls=[[[L], False], [[L], True]]), sym_shuffle, real="shuffle",
+                          functions=[F._shuffle_proteins, F._cleavage_sites], bounds=dict(L=L, calls=2), stubs=stubs, assumptions=["residues are upper-case letters A-Z"], sample_rate=0.2))
     rt = [([0, 1, 3], 0, 1), ([5, 2], 2, 2), ([71, 0, 70], 60, 1), ([141, 69], 0, 2), ([72, 1], 70, 1)]
     if tier == "thorough":
         rt += [([140, 139, 3], 60, 2), ([211], 80, 1), ([70, 70, 70], 70, 3)]
@@ -307,21 +331,20 @@ def _check_decoy(name, seq, dname, dseq, pat, reverse):
 def real_shuffle(cfg, inp):
     from unittest import mock
     import mokapot.parsers.fasta as F
-    prots = [[n, s] for n, s in inp["proteins"]]
-    with mock.patch("numpy.random.permutation", _Scripted(inp.get("perms") or [])):
-        try:
-            dec = F._shuffle_proteins([list(p) for p in prots], PREFIX, cfg["pattern"], cfg["reverse"])
-        except Exception as ex:
-            return dict(exception=repr(ex), violation="_shuffle_proteins raised %r" % (ex,))
-    viol = None
-    if len(dec) != len(prots):
-        viol = "decoy count"
-    else:
+    for call in inp["calls"]:
+        prots = [[n, s] for n, s in call["proteins"]]
+        with mock.patch("numpy.random.permutation", _Scripted(call.get("perms") or [])):
+            try:
+                dec = F._shuffle_proteins([list(p) for p in prots], PREFIX, cfg["pattern"], call["reverse"])
+            except Exception as ex:
+                return dict(exception=repr(ex), violation="_shuffle_proteins raised %r" % (ex,))
+        if len(dec) != len(prots):
+            return dict(violation="decoy count")
         for (n, s), (dn, ds) in zip(prots, dec):
-            viol = _check_decoy(n, s, dn, ds, cfg["pattern"], cfg["reverse"])
-            if viol:
-                break
-    return dict(outputs=[[a, b] for a, b in dec], violation=viol)
+            v = _check_decoy(n, s, dn, ds, cfg["pattern"], call["reverse"])
+            if v:
+                return dict(violation="call with reverse=%s: %s" % (call["reverse"], v))
+    return dict(outputs=[[a, b] for a, b in dec] if len(inp["calls"]) == 1 else None, violation=None)
 
 
 def _read_fasta_simple(text):
